@@ -15,9 +15,15 @@ def classes():
     import autoarray as aa
 
     class FuncList(aa.AbstractLinearObjFuncList):
-        def __init__(self, grid, matrix, regularization=None, run_time_dict=None):
+        def __init__(self, grid, matrix, regularization=None, run_time_dict=None, override=None):
             super().__init__(grid=grid, regularization=regularization, run_time_dict=run_time_dict)
             self._matrix = matrix
+            self._override = override
+
+        @property
+        def operated_mapping_matrix_override(self):
+            # what linear light profiles do downstream: they supply their own already-operated mapping matrix
+            return self._override
 
         @property
         def params(self):
